@@ -14,19 +14,20 @@ pub struct Profile
     pub wreck : bool,      // delete parts of the ruler directory
     pub serial_ref : bool, // C06 reference run
     pub equal_outputs : bool, // favour copy rules over the same sources
+    pub damage : bool,     // corrupt state files, make the rule set cyclic / ambiguous for a while
 }
 
 pub fn profile(name : &str) -> Profile
 {
-    let base = Profile{max_rules : 5, max_steps : 14, fail : true, env : false, tick : false, twin : false, wreck : true, serial_ref : false, equal_outputs : false};
+    let base = Profile{max_rules : 5, max_steps : 14, fail : true, env : false, tick : false, twin : false, wreck : true, serial_ref : false, equal_outputs : false, damage : true};
     match name
     {
         "sched" => Profile{serial_ref : true, equal_outputs : true, max_steps : 10, ..base},
         "env" => Profile{env : true, fail : false, ..base},
-        "clock" => Profile{tick : true, twin : true, fail : false, wreck : false, equal_outputs : true, ..base},
-        "clockd" => Profile{tick : false, twin : true, fail : false, wreck : false, equal_outputs : true, ..base},
+        "clock" => Profile{tick : true, twin : true, fail : false, wreck : false, equal_outputs : true, damage : false, ..base},
+        "clockd" => Profile{tick : false, twin : true, fail : false, wreck : false, equal_outputs : true, damage : false, ..base},
         "big" => Profile{max_rules : 10, max_steps : 24, ..base},
-        "crash" => Profile{max_steps : 7, wreck : false, ..base},
+        "crash" => Profile{max_steps : 7, wreck : false, damage : false, ..base},
         _ => base,
     }
 }
@@ -84,8 +85,30 @@ fn sched_for(rng : &mut Rng, serial : bool) -> Sched { if serial { Sched::Serial
 /*  one random user-level action (not an invocation); returns false if nothing was done */
 fn user_action(rng : &mut Rng, pr : &Profile, scn : &mut Scn, rules : &mut Vec<XRule>, leaves : &Vec<String>, targets : &Vec<String>) -> bool
 {
-    match rng.below(14)
+    match rng.below(17)
     {
+        14 =>
+        {   /* an older file lands on a target path with its old stamp */
+            let t = &targets[rng.below(targets.len())];
+            scn.mv("zz", t)
+        },
+        15 =>
+        {
+            if !pr.damage || !rng.chance(1, 2) { return false; }
+            if rng.chance(1, 3) { scn.corrupt("table", "") }
+            else { let h = scn.history_rids(); if h.len() == 0 { return false; } let r = h[rng.below(h.len())].clone(); scn.corrupt("hist", &r) }
+        },
+        16 =>
+        {   /* make the graph invalid: a rule gets a target of another (possibly dependent) rule as source, or steals a target */
+            if !pr.damage || !rng.chance(1, 2) { return false; }
+            let k = rng.below(rules.len());
+            let j = rng.below(rules.len());
+            let t = rules[j].tg[rng.below(rules[j].tg.len())].clone();
+            if rng.chance(1, 5) { if rules[k].tg.contains(&t) { return false; } rules[k].tg.push(t); rules[k].tg.sort(); }
+            else { if rules[k].src.contains(&t) { return false; } rules[k].src.push(t); rules[k].src.sort(); }
+            scn.set_rules(rules);
+            true
+        },
         0..=3 => { let l = &leaves[rng.below(leaves.len())]; let c = format!("S{}", rng.below(3)); if scn.sys.get(l) == Some(c.clone()) { return false; } scn.edit(l, &c); true },
         4 => { let t = &targets[rng.below(targets.len())]; let c = format!("J{}", rng.below(3)); if scn.sys.get(t) == Some(c.clone()) { return false; } scn.edit(t, &c); true },
         5 => { let t = &targets[rng.below(targets.len())]; scn.del(t) },
@@ -99,6 +122,12 @@ fn user_action(rng : &mut Rng, pr : &Profile, scn : &mut Scn, rules : &mut Vec<X
                 1 => { if !pr.fail { return false; } rules[k].kind = if rules[k].kind == "fail" { "fn".to_string() } else { "fail".to_string() }; },
                 2 => { rules[k].layout = 1 - rules[k].layout; },
                 3 => { rules[k].rev = !rules[k].rev; },
+                4 if rng.chance(1, 2) =>
+                {   /* drop a source that is another rule's target (undoes most cycles) or a duplicated target */
+                    let before = (rules[k].src.clone(), rules[k].tg.clone());
+                    if rules[k].src.len() > 1 { let tset : Vec<String> = targets.clone(); if let Some(pos) = rules[k].src.iter().position(|s| tset.contains(s)) { rules[k].src.remove(pos); } }
+                    if before == (rules[k].src.clone(), rules[k].tg.clone()) { return false; }
+                },
                 4 =>
                 {   /* add or remove a leaf source */
                     let l = leaves[rng.below(leaves.len())].clone();
